@@ -497,6 +497,40 @@ func (c *Ctx) a3Loop(l *mapLoop) []a3Finding {
 			out = append(out, a3Finding{"A3.4", "insertion into the ranged map", "a key other than the current one is stored into the map being iterated: Go may or may not visit it", mu, "bad"})
 		}
 	}
+	// (7) a map created outside the loop that is filled inside the loop AND read inside the loop (looked up, ranged
+	// over, handed to a call): what an iteration sees depends on which elements were visited before it
+	for b := range l.body {
+		for _, in := range b.Instrs {
+			mu, ok := in.(*ssa.MapUpdate)
+			if !ok {
+				continue
+			}
+			mk, isMk := resolve(mu.Map, mu).(*ssa.MakeMap)
+			if !isMk || (l.body[mk.Block()] && mk.Block() != l.header) || !l.fromIter(mu.Key) && !l.fromIter(mu.Value) {
+				continue
+			}
+			readAt := ssa.Instruction(nil)
+			for _, r := range *mk.Referrers() {
+				if !inBody(r) {
+					continue
+				}
+				switch x := r.(type) {
+				case *ssa.MapUpdate, *ssa.DebugRef:
+					continue
+				case *ssa.Call:
+					if n := calleeName(x); n == "builtin:len" {
+						continue
+					}
+					readAt = x
+				default:
+					readAt = r
+				}
+			}
+			if readAt != nil {
+				out = append(out, a3Finding{"A3.7", "map filled and read across iterations (" + short(org(mk)) + ")", "a map created before the loop is updated per element and also used inside the loop (" + c.pos(readAt.Pos()) + "): an iteration sees the entries of the elements visited before it, i.e. the outcome depends on the iteration order of the ranged map", mu, "bad"})
+			}
+		}
+	}
 	// (6) insertion into another map under a key computed from the current key: two keys of the ranged map may be
 	// mapped to the same new key, and which element survives depends on the iteration order - unless the stored
 	// value does not depend on the element (a set insertion) or the key is the current key itself (distinct keys).
